@@ -65,7 +65,8 @@ pub fn arch_case(rng: &mut Rng) -> String {
                 let indim = if rng.chance(1, 5) { cur + 1 } else { cur };
                 // now and then a layer without outputs: the shape after it has width 0
                 let outdim = if rng.chance(1, 16) { 0 } else { 1 + rng.below(3) };
-                let a = rand_aff(rng, outdim, indim);
+                // now and then an input shift: identity matrix, non-zero offset
+                let a = if cur > 0 && rng.chance(1, 8) { affinitree::linalg::affine::AffFunc::from_mats(Array2::eye(cur), rand_int_vec(rng, cur)) } else { rand_aff(rng, outdim, indim) };
                 let mut d = String::from("linear ");
                 enc::aff(&mut d, &a);
                 (d, arch.linear(a))
